@@ -1,6 +1,6 @@
 ID = "C03"
 LEVEL = "proof"
-COQ_TARGETS = ["Props/Properties_C03.vo", "Extract/ExtractSpec.vo", "Spec/SpecFacts.vo"]
+COQ_TARGETS = ["Props/Properties_C03.vo", "Extract/ExtractSpec.vo", "Spec/SpecFacts.vo", "Spec/SpecGlue.vo"]
 PROPS_FILES = ["Props/Properties_C03.v"]
 RUNS = [dict(name="spec", harness="c03", driver="spec", model_ml="spec_model")]
 EXPLANATION = ("coq/Spec/Spec.v is a decoder written from the Cap'n Proto encoding specification (only /, mod and byte "
@@ -19,19 +19,36 @@ TRUSTED = ["coq/Spec/Spec.v is the author's reading of capnproto.org/encoding.ht
            "the harness encoder harness/cmd/c03/enc.go (independent of the library; a wrong encoder shows up as a "
            "disagreement of BOTH decoders with the expected tree)"]
 MODELLED = ["Go slices (modelled by Reader.slice)", "uint64 budget and uint depth (Z with explicit wrap where Go wraps)"]
-ASSUMPTIONS = ["bytes are 0..255",
-               "completeness only: every segment is at most 2^32-8 bytes; composite element counts < 2^29 (the reader "
-               "rejects larger counts with an error, known finding)",
+ASSUMPTIONS = ["bytes are 0..255 (all theorems)",
+               "every segment is at most 2^32-8 bytes (seg_small / segs_small): a premise of read_ptr_complete, of every accessor "
+               "theorem (inside sview_ok / list_ok) and of walk_eq_spec; NOT needed by read_ptr_sound / read_ptr_inside",
+               "element counts < 2^29 (list_repr): a premise of read_ptr_complete and of the list accessor theorems; for "
+               "walk_eq_spec it is required only of the lists the decoder meets (vrepr). The reader rejects larger composite tag "
+               "counts with an error (known finding), so on such a message walker and spec decoder differ (error vs list)",
+               "the specification decoder is used in its lenient mode (spec_resolve false: a composite tag need not match the list "
+               "pointer's word count; what the Go reader accepts); strict mode: Properties_C05_specvalid.v",
                "harness runs use T=2^62, D=1000 so that limits never interfere (limits are C02's subject)"]
-LEVEL_TEXT = ("Proof: for all 64-bit words the field extractors equal the spec's fields; for all messages, addresses and "
-              "limits a pointer returned by readPtr is the spec's target and lies inside the segments, and conversely the spec's target is returned when limits suffice; all struct/list/text/data "
-              "accessors return the spec's values incl. short/long sections and list upgrades. Tie: the extracted spec "
-              "decoder vs the real accessors on encoder-generated, library-built, mutated, raw and cyclic messages: "
-              "pointer targets, field sweeps over offsets 0..DataSize+8 x widths 1/2/4/8 and all bits, list reads of every "
-              "family, whole-tree walks, and the encoder's own value tree.")
-LEVEL_NOTE = ("The stretch theorem walk_eq_spec (whole-tree equality walk = spec_decode, and budget consumed = spec cost, "
-              "for all messages, caps and fuel) is proved in full (coq/Spec/WalkProofs.v). Known finding: composite tag counts >= 2^29 (zero-sized elements) are rejected with an error. "
-              "Fixed during this work (3672bba): double-far pointer to a zero-sized struct at word 0 of a segment was read as null.")
+LEVEL_TEXT = ("Proof: for all 64-bit words the field extractors equal the spec's fields; for all messages (bytes 0..255), addresses and "
+              "limits a pointer returned by readPtr is the (lenient) spec's target and lies inside the segments; conversely the spec's "
+              "target is returned when limits suffice, segments are <= 2^32-8 bytes and the element count is < 2^29; under the same "
+              "segment-size premise all struct/list/text/data accessors return the spec's values incl. short/long sections and both "
+              "list-upgrade directions (single-step theorems; an element read from a list is again a well-formed struct view). "
+              "Whole trees (walk_eq_spec): for every message, caps and fuel the generic walker returns exactly the lenient "
+              "spec_decode tree and consumes exactly its cost, provided depth limit > fuel, budget >= spec cost, segments <= 2^32-8 "
+              "bytes and every list the decoder MEETS has < 2^29 elements (vrepr, decidable by vrepr_check; data words are not "
+              "constrained). Tie: the extracted spec decoder vs the real accessors on encoder-generated, library-built, mutated, raw "
+              "and cyclic messages: pointer targets, field sweeps over offsets 0..DataSize+8 x widths 1/2/4/8 and all bits, list reads "
+              "of every family incl. upgrade reads, whole-tree walks, and the encoder's own value tree.")
+LEVEL_NOTE = ("walk_eq_spec is proved for every message satisfying its premises (coq/Spec/WalkProofs.v); the premise about element "
+              "counts ranges over the pointer words the decoder visits only, and C03_walk_eq_spec_applies instantiates the theorem on a "
+              "three-segment message with far and double-far pointers, a composite list and data words that look like hostile pointers. "
+              "The walker reads every list at its native kind: the upgrade reads and out-of-section defaults are covered by the "
+              "single-step accessor theorems and by the runs, not by walk_eq_spec. All C03 theorems are about the lenient decoder; the bridge to the strict "
+              "one is in Properties_C05_specvalid.v: on a strictly valid message (strict_valid_message = VOk) both decoders agree "
+              "(C05_strict_valid_decoders_agree) and the walker returns the strict tree under walk_eq_spec's premises "
+              "(C05_strict_valid_walk); absence of TErr nodes in that tree is not stated as a theorem. Known finding: composite tag counts >= 2^29 (zero-sized elements) are "
+              "rejected with an error. Fixed during this work: a double-far pointer to a zero-sized struct at word 0 of a segment was "
+              "read as null.")
 TECHNIQUE = "Coq proof over an executable model + extracted-model/implementation differential run"
 DESIGN_REF = "DESIGN.md section 6, C03"
 
